@@ -93,6 +93,42 @@ def grid(tier, seed):
     return out
 
 
+def margs_of(kind, kw):
+    if kind == "demoor":
+        return (f"kind=demoor D={kw['max_demand']} m={kw['max_useful_life']} L={kw['lead_time']} Q={kw['max_order_quantity']} cv={frac(kw['variable_order_cost'])} "
+                f"cs={frac(kw['shortage_cost'])} cw={frac(kw['wastage_cost'])} ch={frac(kw['holding_cost'])} issue={kw['issue_policy']}")
+    if kind == "hendrix":
+        return (f"kind=hendrix m={kw['max_useful_life']} Qa={kw['max_order_quantity_a']} Qb={kw['max_order_quantity_b']} ca={frac(kw['variable_order_cost_a'])} "
+                f"cb={frac(kw['variable_order_cost_b'])} pa={frac(kw['sales_price_a'])} pb={frac(kw['sales_price_b'])}")
+    if kind == "mirjalili":
+        return (f"kind=mirjalili D={kw['max_demand']} m={kw['max_useful_life']} Q={kw['max_order_quantity']} cv={frac(kw['variable_order_cost'])} "
+                f"cf={frac(kw['fixed_order_cost'])} cs={frac(kw['shortage_cost'])} cw={frac(kw['wastage_cost'])} ch={frac(kw['holding_cost'])}")
+    return f"kind=forest S={kw['S']} r1={frac(kw['r1'])} r2={frac(kw['r2'])} p={frac(kw['p'])}"
+
+
+def twins(g, seed):
+    """for the smallest instance of every class: instances with the same structural (integer / string) parameters and other real-valued
+    coefficients, to be built in the same process right after it.  Returns [(index of the base in g, kind, kwargs, model_args)]."""
+    rng = random.Random(seed * 977 + 3)
+    out = []
+    for kind in ("forest", "demoor", "hendrix", "mirjalili"):
+        cands = [i for i, x in enumerate(g) if x[0] == kind]
+        if not cands:
+            continue
+        i = min(cands, key=lambda j: n_triples(kind, g[j][1]) if kind != "forest" else g[j][1]["S"])
+        kw = g[i][1]
+        floats = [k for k, v in kw.items() if isinstance(v, float)]
+        for _ in range(2):
+            kw2 = dict(kw)
+            for k in floats:
+                if kind == "forest" and k == "p":
+                    continue
+                kw2[k] = dy(rng)
+            if kw2 != kw:
+                out.append((i, kind, kw2, margs_of(kind, kw2)))
+    return out
+
+
 # --------------------------------------------------------------------------- independent scalar model of the documented dynamics
 
 def issue_oldest_first(stock, d):
